@@ -829,6 +829,29 @@ func (e *Exec) execInsert(st *DBState, in *InsertStmt, params map[string]SQLVal)
 			return execResult{err: "UNIQUE constraint failed: " + t.def.name}
 		}
 	}
+	// foreign keys (PRAGMA foreign_keys=1 is in rosmar's DSN): the parent row must exist
+	fkViol := tFalse
+	for ci, cd := range t.def.cols {
+		if cd.refTable == "" {
+			continue
+		}
+		pt := st.tables[strings.ToLower(cd.refTable)]
+		if pt == nil {
+			continue
+		}
+		pid, ok := pt.def.colIdx["id"]
+		if !ok {
+			continue
+		}
+		found := tFalse
+		for _, pr := range pt.rows {
+			found = tOr(found, tAnd(pr.present, sqlCompare("=", pr.cols[pid], newCols[ci]).truth()))
+		}
+		fkViol = tOr(fkViol, tAnd(tNot(newCols[ci].Null), tNot(found)))
+	}
+	if e.branch(tAnd(tNot(anyConflict), fkViol)) {
+		return execResult{err: "FOREIGN KEY constraint failed"}
+	}
 	n := mkBV(64, 0)
 	// free slot selection
 	firstFree := make([]*Term, len(t.rows))
